@@ -45,3 +45,34 @@ def inputQueryDoc : SchemaDoc := doc (miniPrelude ++ [ defn .inputObject "Query"
 def okDoc : SchemaDoc := doc (miniPrelude ++ [ defn .object "Query" 1 [fld "a" (ty "Int")] ])
 
 end Gql.Examples
+
+namespace Gql.Examples
+open Gql
+
+def opType (op ty : String) : OpTypeDef := { op := str op, type := str ty, pos := pos 0 }
+def extSchema (line : Nat) (ots : List OpTypeDef) : SchemaDef := { desc := [], dirs := [], opTypes := ots, pos := pos line }
+
+def typeA : Definition := defn .object "A" 1 [fld "a" (ty "Int")]
+def typeB : Definition := defn .object "B" 2 [fld "b" (ty "Int")]
+
+/-- R17a: `extend schema { query: A }` then `extend schema { query: B }` -/
+def rootsAB : SchemaDoc := doc (miniPrelude ++ [typeA, typeB]) (schemaExt := [extSchema 3 [opType "query" "A"], extSchema 4 [opType "query" "B"]])
+def rootsBA : SchemaDoc := doc (miniPrelude ++ [typeA, typeB]) (schemaExt := [extSchema 4 [opType "query" "B"], extSchema 3 [opType "query" "A"]])
+
+def dirDef (n : String) (line : Nat) (locs : List String) (src : Nat := 1) : DirectiveDef :=
+  { desc := [], name := str n, args := [], locations := locs.map str, repeatable := false, pos := pos line src }
+
+/-- R7b: `directive @skip on FIELD` and `directive @skip on OBJECT`, in both orders -/
+def skipFO : SchemaDoc := doc (miniPrelude ++ [typeA]) (dirs := [dirDef "skip" 1 ["FIELD"], dirDef "skip" 2 ["OBJECT"]])
+def skipOF : SchemaDoc := doc (miniPrelude ++ [typeA]) (dirs := [dirDef "skip" 2 ["OBJECT"], dirDef "skip" 1 ["FIELD"]])
+
+/-- `interface I { f: U }  type A implements I { f: T }  type T implements U { a: Int }  union U = X`
+    with `U` declared before / after `T` -/
+def defI : Definition := defn .interface "I" 1 [fld "f" (ty "U")]
+def defA : Definition := defn .object "A" 2 [fld "f" (ty "T")] (interfaces := ["I"])
+def defT : Definition := defn .object "T" 3 [fld "a" (ty "Int")] (interfaces := ["U"])
+def defU : Definition := defn .union "U" 4 (types := ["X"])
+def orderUT : SchemaDoc := doc (miniPrelude ++ [defI, defA, defU, defT])
+def orderTU : SchemaDoc := doc (miniPrelude ++ [defI, defA, defT, defU])
+
+end Gql.Examples
